@@ -10,6 +10,9 @@
 (*   Levels   every parsed level decodes to Dim(i) (for JPEG: the dimensions in the JPEG stream)     *)
 (*   AlphaLevels  palettised, alpha depth 1/4/8: alpha plane of every level (level 0 exact, the        *)
 (*            scaled-down levels within a resampling-tolerant band of the scaled source alpha)        *)
+(*   File     save_blp over a destination that was absent / held a shorter / a longer earlier save      *)
+(*            leaves exactly the encoded bytes (main file and BLP0 external level files); load_blp     *)
+(*            returns the encoded structure                                                          *)
 (*   Decode   raw BGRA: decoded level 0 = source pixels; palettised: every colour is a palette      *)
 (*            entry and every (source alpha, decoded alpha) pair satisfies QuantOk(bits)            *)
 (* D-conjuncts (DRIFT): levels laid out back to back from DataStart, file ends after the last one,   *)
@@ -76,6 +79,14 @@ AlphaLevelsP(e) == LET tbad == {tk \in 1..Len(e.levels) : ~AlphaLevelOk(e.levels
 AlphaLevelsD(e) == <<\A tk \in 1..Len(e.levels) : \A ti \in 1..Len(e.levels[tk].pairs) :
                         QuantOk(tcase.alpha, e.levels[tk].pairs[ti][1], e.levels[tk].pairs[ti][2]), "alpha-level-exact">>
 
+\* the file-path API: whatever was at the destination before (nothing / a shorter / a longer earlier save), save_blp
+\* leaves exactly the encoded bytes in the main file and in every external level file, and load_blp returns the structure
+FileP(e) == IF e.pre \notin PreStates THEN <<FALSE, "bad-case">>
+            ELSE IF e.sres # "ok" THEN <<FALSE, "save-failed">>
+            ELSE IF e.mainTok # tenc.tok \/ e.mainLen # tenc.len \/ e.extToks # tenc.exttoks THEN <<FALSE, "save-bytes">>
+            ELSE IF e.lres # "ok" THEN <<FALSE, "load-failed">>
+            ELSE <<e.stok = tconv.stok, "load-structure">>
+
 PofEvent(e) == CASE e.ev = "Convert" -> ConvertP(e)
                  [] e.ev = "Encode"  -> EncodeP(e)
                  [] e.ev = "Header"  -> HeaderP(e)
@@ -83,6 +94,7 @@ PofEvent(e) == CASE e.ev = "Convert" -> ConvertP(e)
                  [] e.ev = "Decode"  -> DecodeP(e)
                  [] e.ev = "Levels"  -> LevelsP(e)
                  [] e.ev = "AlphaLevels" -> AlphaLevelsP(e)
+                 [] e.ev = "File"    -> FileP(e)
                  [] e.ev = "Reset"   -> <<TargetOk(e.ver, e.enc) /\ AlphaOk(e.enc, e.alpha), "bad-case">>
                  [] OTHER -> Assert(FALSE, <<"unknown event", e.ev>>)
 DofEvent(e) ==
@@ -107,7 +119,7 @@ Next == /\ tl <= Len(Rec)
            /\ IF td[1] THEN TRUE ELSE PrintT(<<"DRIFT", tl, td[2]>>)
            /\ tcase' = IF e.ev = "Reset" THEN [ver |-> e.ver, enc |-> e.enc, alpha |-> e.alpha, w |-> e.w, h |-> e.h, mips |-> e.mips] ELSE tcase
            /\ tconv' = IF e.ev = "Convert" THEN [stok |-> e.stok, nimg |-> e.nimg] ELSE IF e.ev = "Reset" THEN 0 ELSE tconv
-           /\ tenc'  = IF e.ev = "Encode" THEN [len |-> e.len, tok |-> e.tok] ELSE IF e.ev = "Reset" THEN 0 ELSE tenc
+           /\ tenc'  = IF e.ev = "Encode" THEN [len |-> e.len, tok |-> e.tok, exttoks |-> e.exttoks] ELSE IF e.ev = "Reset" THEN 0 ELSE tenc
         /\ UNCHANGED bvars
 Accepted == LET d == TLCGet("stats").diameter IN
             IF d - 1 = Len(Rec) THEN PrintT(<<"CONSUMED", Len(Rec)>>) ELSE Print(<<"TRACE_STUCK_AT", d>>, FALSE)
